@@ -75,9 +75,19 @@ class FS:
             f.write('<%s>' % name)
         return Extern(name, dump)
 
+    def copy_over(self, c, src, dst, *a, **k):
+        """shutil.copyfile / copy / copy2(src, dst): dst is opened for writing and filled in place (NOT atomic)"""
+        f = self.open(c, dst, 'wb')
+        f.write('<copy of %s>' % (src if not isinstance(src, Sym) else 'src'))
+        f.close()
+        return dst
+
     def externs(self):
         return {'open': Extern('open', self.open), 'os.rename': Extern('os.rename', self.rename),
-                'os.remove': Extern('os.remove', self.remove)}
+                'os.replace': Extern('os.replace', self.rename), 'shutil.move': Extern('shutil.move', self.rename),
+                'os.remove': Extern('os.remove', self.remove),
+                'shutil.copyfile': Extern('shutil.copyfile', self.copy_over), 'shutil.copy': Extern('shutil.copy', self.copy_over),
+                'shutil.copy2': Extern('shutil.copy2', self.copy_over)}
 
 
 def atomic_update_clauses(events, targets, tmp_ok=lambda p: True):
